@@ -24,7 +24,7 @@ PROP = "C07"
 WORK = os.path.join(vlib.OUT, "c07")
 BATCH = 200
 NPAR = max(2, min(12, vlib.NCPU - 2))
-RUN_TIMEOUT = 120
+RUN_TIMEOUT = 40
 
 ENGINES = {
     # (name, options before the source file, execution option: everything after -e? is passed to the compiled program)
@@ -579,7 +579,10 @@ def run(tier, jobs=None, mutate=None, extra_engines=(), engines=None):
     engines = ENGINES[tier] if engines is None else engines
     stats = Stats()
     t0 = time.time()
-    gen, st, di = gen_cases(jobs or JOBS[tier], stats)
+    jobs = jobs or JOBS[tier]
+    if os.environ.get("C07_JOBS"):       # development aid: run a subset of the TLC jobs
+        jobs = [j for j in jobs if j[0] in os.environ["C07_JOBS"].split(",")]
+    gen, st, di = gen_cases(jobs, stats)
     t_tlc = time.time() - t0
     total = 0
     bydepth = collections.Counter()
